@@ -499,6 +499,7 @@ func BuildDoc(r *kit.Rand, cfg DocConfig) (*Doc, error) {
 				dict = nil
 			}
 			arg := shared{val: dict, snap: Clone(dict)}
+			bodySnap := bytes.Clone(body)
 			s, err := w.OpenStream(ref, dict, filters...)
 			if err != nil {
 				return d, fmt.Errorf("%s: OpenStream(%v): %w", cfg.String(), names, err)
@@ -538,7 +539,11 @@ func BuildDoc(r *kit.Rand, cfg DocConfig) (*Doc, error) {
 				return d, fmt.Errorf("%s: stream Close (filters %v, %d bytes): %w", cfg.String(), names, len(body), err)
 			}
 			checkArgs("OpenStream", append(dargs, arg)...)
-			record(&WObj{Ref: ref, Value: arg.snap, IsStream: true, Body: body, Filters: names})
+			if !bytes.Equal(body, bodySnap) {
+				d.Problems = append(d.Problems, Problem{"argument-modified/stream-data/" + cfg.CipherLabel(),
+					fmt.Sprintf("%s: the bytes passed to the stream's Write were modified (filters %v, %d bytes)", cfg.String(), names, len(body))})
+			}
+			record(&WObj{Ref: ref, Value: arg.snap, IsStream: true, Body: bodySnap, Filters: names})
 			for _, o := range deferred {
 				record(o)
 			}
